@@ -32,6 +32,7 @@ type Spec struct {
 	Order    int    `json:"order"`     // 0 client half-closes first; 1 target speaks and half-closes first; 2 both at once; 3 target answers and goes away while the client keeps uploading and reads only at the end
 	TCPBuf   int    `json:"tcpbuf"`
 	IdleS    int    `json:"idle_s"` // seconds both sides stay silent after the handshake before data flows
+	Manager  bool   `json:"listener_from_manager,omitempty"` // the listener is obtained from the listener manager (the server's accept path); the client half-closes and reads the answer late, with a small receive buffer
 	StopMid  bool   `json:"listener_closed_mid_relay,omitempty"` // the listener stops accepting (StreamServe's context is cancelled) after the handshake; the relay goes on
 }
 
@@ -69,7 +70,12 @@ func build(s Spec) *engine.Scenario {
 		vw.Hosts["target.example"] = []net.IP{net.ParseIP("93.184.216.34")}
 		hk.ResetLogs()
 		w := world.NewTCP([]*world.Key{other, key}, 0, 59*time.Second)
-		w.Start()
+		if s.Manager {
+			vw.TCPSndBuf = 1 << 20
+			w.StartShared()
+		} else {
+			w.Start()
+		}
 		taddr := targets[s.AddrType]
 		listenAddr := taddr
 		if s.AddrType == 2 {
@@ -145,11 +151,22 @@ func build(s Spec) *engine.Scenario {
 			vw.TCPSndBuf = 1 << 20
 		}
 		cl := world.Dial("203.0.113.7:0")
-		if s.Order == 3 {
+		if s.Order == 3 || s.Manager {
 			cl.C.SetReadBuffer(256)
+		}
+		switch {
+		case s.Manager:
+			// everything is sent and the client half-closes; it reads the answer only two seconds later
+			cl.Send(wire, s.Seg)
+			cl.C.CloseWrite()
+			vrt.Sleep(2 * time.Second)
+			cl.ReadAll()
 		}
 		switch s.Order {
 		case 0, 2:
+			if s.Manager {
+				break
+			}
 			rd := vrt.Spawn("client-reader", func() { cl.ReadAll() })
 			if s.StopMid && len(chunks) > 1 {
 				// the connection is relaying when its listener is closed: it runs to completion
@@ -200,6 +217,9 @@ func build(s Spec) *engine.Scenario {
 		cl.C.Close()
 		vrt.WaitIdle()
 		if s.StopMid {
+			w.Stop2()
+		} else if s.Manager {
+			w.CloseListener()
 			w.Stop2()
 		} else {
 			w.Stop()
@@ -312,6 +332,10 @@ func gridE(tier string) []Spec {
 				}
 			}
 		}
+	}
+	// the server's accept path (listener manager), a client that half-closes and reads a large answer late
+	for cipher := 0; cipher < 4; cipher++ {
+		out = append(out, Spec{Cipher: cipher, AddrType: cipher % 3, Coalesce: 0, Up: 2000, Down: 30000, Chunk: 1000, Order: 0, Manager: true})
 	}
 	// the listener is closed while the connection is relaying
 	for cipher := 0; cipher < 4; cipher++ {
